@@ -622,7 +622,7 @@ fn hb_done(st: &mut State, me: Tid, d: &Done) {
                 join_into(&mut hb.clocks[me], &c);
             }
         }
-        OpKind::ThreadSpawn | OpKind::ThreadYield => {}
+        OpKind::ThreadSpawn | OpKind::ThreadYield | OpKind::ChanLen => {}
         OpKind::CellRead | OpKind::CellWrite => {
             let write = d.kind == OpKind::CellWrite;
             let c = hb.clocks[me].clone();
